@@ -1,7 +1,12 @@
 #!/bin/bash
-# tools/mkmut.sh <name> <file> <python-expr old> <new> : make /verif/mutants/<name>.patch by exact string replacement in /repo/<file>
+# tools/mkmut.sh <name> <file> <old> <new> : make /verif/mutants/<name>.patch by exact string replacement of
+# <old> by <new> in <file>, in a scratch worktree of /repo HEAD (the working tree of /repo is not touched)
 set -e
-cd /repo
+export GOFLAGS=-mod=mod GOPROXY=off GOSUMDB=off GOTOOLCHAIN=local
+WT=$(mktemp -d /tmp/mkmut-XXXX); rmdir $WT
+git -C /repo worktree add -q $WT HEAD
+trap 'git -C /repo worktree remove --force $WT' EXIT
+cd $WT
 python3 - "$2" "$3" "$4" <<'PY'
 import sys
 f,old,new=sys.argv[1:4]
@@ -9,7 +14,6 @@ s=open(f).read()
 assert old in s, "pattern not found"
 open(f,'w').write(s.replace(old,new,1))
 PY
-go build ./... 
+go build ./...
 git diff > /verif/mutants/$1.patch
-git checkout -- .
 echo "made $1"
